@@ -831,6 +831,8 @@ json gen_api_step(Rng &r, int cl, int ctx, const std::vector<OptRef> &refs, cons
 	} else if (k < 7 && g.text_setters) {
 		s["op"] = "setmulti";
 		int n = list ? (int)r.range(1, 4) : 1;
+		if (g.illegal && r.chance(1, 15))
+			n = 0; // a bulk set without values is refused
 		json vals = json::array();
 		int badpos = (g.bad_text && r.chance(1, 3)) ? (int)r.below(n) : -1;
 		for (int i = 0; i < n; i++)
